@@ -83,6 +83,9 @@ func genC12(t *rapid.T) (*C12Case, []string) {
 		ast.ExprS(ast.Set(ast.Id("ê"), ast.Num("1"))),
 		ast.Print(ast.Id("ê"), ast.Str("ü")),
 		ast.ExprS(ast.Set(ast.Id("lead"), ast.Num("2"))),
+		ast.Print(ast.Str("a string literal\nthat spans\n\nseveral lines")),
+		ast.ExprS(ast.Set(ast.Id("re"), ast.Regex("multi\nline regex"))),
+		ast.Print(ast.Str("\n")),
 	}
 	nlead := rapid.IntRange(0, len(lead)).Draw(t, "nlead")
 	leadRule := ast.Rule("BEGIN", nil, ast.Block(lead[:nlead]...))
@@ -291,6 +294,18 @@ func TestC12(t *testing.T) {
 		return nil
 	}
 	rec.Replayer("position", replay)
+	rec.Replayer("universal", func(raw json.RawMessage) error {
+		var c C12Case
+		if err := json.Unmarshal(raw, &c); err != nil {
+			return err
+		}
+		src := string(c.Src)
+		o := run.InProc(src, []run.InFile{{Name: "in", Data: []byte(`[1,{"a":2}]`)}}, nil, run.Opts{Budget: c01Budget})
+		if m := c12Universal(src, o); m != "" {
+			return fmt.Errorf("%s\nprogram:\n%s", m, src)
+		}
+		return nil
+	})
 	rec.Replayer("cli-diagnostic", func(raw json.RawMessage) error {
 		var c C12Case
 		if err := json.Unmarshal(raw, &c); err != nil {
